@@ -28,6 +28,7 @@ def check(repo: Repo, rep, tier):
     key_routing(repo, rep)
     argument_agree(repo, rep)
     align_operands(repo, rep)
+    adapter_args_agree(repo, rep)
     from .C02 import frame_locals
 
     frame_locals(repo, rep)
@@ -415,6 +416,28 @@ def align_operands(repo: Repo, rep):
             rep.ok("R-ALIGN-OPERANDS", cf, c, "align(old value, new value)")
         else:
             rep.violation("R-ALIGN-OPERANDS", cf, c, f"{cf.qualname} calls `{short(c, 50)}`: the stored value is not the first sequence, the edit script (and the side of every `==`) is reversed", construct=f"{cf.qualname}:align-args")
+
+
+def adapter_args_agree(repo: Repo, rep):
+    rep.rule(
+        "R-ADAPTER-ARGS",
+        "the adapter that repairs a paired element is chosen for the values it is then given: in every `<x>.get_adapter(A, B).assign(A', node, B')` of "
+        "the adapters A is A' and B is B'.  get_adapter() compares the types of its two arguments; handed a wrapper (`Argument`) for one of them it "
+        "never finds them equal and falls back to replacing the element wholesale - unchanged parts of a list / dict passed by position lose their text",
+    )
+    n = 0
+    for f in repo.pkg_funcs():
+        if not f.module.rel.startswith("_adapter/"):
+            continue
+        for c in body_nodes(f.node):
+            if isinstance(c, ast.Call) and isinstance(c.func, ast.Attribute) and c.func.attr == "assign" and isinstance(c.func.value, ast.Call) and isinstance(c.func.value.func, ast.Attribute) and c.func.value.func.attr == "get_adapter" and len(c.args) == 3 and len(c.func.value.args) == 2:
+                n += 1
+                ga = c.func.value.args
+                if norm(ga[0]) == norm(c.args[0]) and norm(ga[1]) == norm(c.args[2]):
+                    rep.ok("R-ADAPTER-ARGS", f, c, "get_adapter(old, new).assign(old, node, new)")
+                else:
+                    rep.violation("R-ADAPTER-ARGS", f, c, f"{f.qualname}: the adapter is chosen for `({norm(ga[0])}, {norm(ga[1])})` but applied to `({norm(c.args[0])}, {norm(c.args[2])})`: the choice looks at another object than the one that is repaired (e.g. the Argument wrapper instead of its value), so a structural adapter is never selected and the element is re-generated as a whole", construct=f"{f.qualname}:adapter-args")
+    rep.floor("R-ADAPTER-ARGS", "get_adapter(..).assign(..) sites", n, 4)
 
 
 def by_key(repo: Repo, rep):
